@@ -56,12 +56,16 @@ its hand-written list model), and the comparison operators: `_set == / < o._set`
 vector = the list of the pointees, `std::sort` with a lambda = `sortedBy (<member>_pred <comparator>)`, the lambda being executed
 symbolically.  Two shapes of `ComputeSortedPtrVec` are known: `(c, comp)` where the lambda captures the comparator object `comp`
 handed over by the caller -- `key_comp()` = `_set.key_comp()` = the stored comparator `lt`; `o.key_comp()` = the comparator
-stored in the other set, which in this model is the same `lt` (the generated `swap` / `merge` already treat the two sets as
-sharing `lt`: the state `Sets.SSet` has no comparator component), its owner being remembered: sorting the inline elements of
-one set with the comparator object of the OTHER set is refused -- and the historical `(c)` where the lambda calls a
+stored in the other set: `lt_o`, a parameter of its own, in the CONST members on two sets (`operator==`, `!=`, `<`, `<=`, `>`,
+`>=`: `def op_… (lt) (N) (s) (lt_o) (o) …`, so that the text says which comparator object orders which side; `o < *this` reads
+`op_lt lt_o N o lt s …`), and the same `lt` in `swap` / `merge` (the state `Sets.SSet` has no comparator component); its owner
+is remembered: sorting the inline elements of one set with the comparator object of the OTHER set is refused -- and the
+historical `(c)` where the lambda calls a
 DEFAULT-CONSTRUCTED comparator `Compare()`, which becomes the extra parameter `lt_default` of the relational operators),
 `std::lexicographical_compare` with the local
-functor `Comp` (each of its overloads is checked to be `<` of the element type) = `vecLess ltT`.  A member that exists with a
+functor `Comp` (exactly the three overloads on pointer/reference, each checked to be `<` of the element type) = `vecLess ltT`;
+`std::equal(f1, l1, f2, Eq())` (three-iterator form, `Eq` a local struct with the same three overloads, each `==` of the element
+type) = `vecEq eqT l1 (l2.take l1.length)`, undefined behaviour unless `l1.length ≤ l2.length`.  A member that exists with a
 different body in the two instantiations (it calls `ToVecIt` / `ToSetIt`, which have one overload per iterator kind) is generated
 once per instantiation (`…_ptr`, `…_var`).
 
@@ -171,7 +175,7 @@ if LEVEL >= 5:
     TARGETS = TARGETS + TARGETS_P5
 
 RESERVED = {'s', 'o', 'lt', 'N', 'α', 'some', 'none', 'if', 'then', 'else', 'match', 'with', 'let', 'fun', 'def', 'true',
-            'false', 'st', 'fl', 'x', 'at', 'from', 'end', 'in', 'do', 'vs'}
+            'false', 'st', 'fl', 'x', 'at', 'from', 'end', 'in', 'do', 'vs', 'lt_o'}
 
 
 def dq(n):
@@ -245,6 +249,8 @@ class Translator(F.Translator):
         self.irt_fields = None
         self.local_structs = {}
         self.extras_of = {}
+        self.other_lt = 'lt'      # how the comparator object of the other set reads in the member being translated
+        self.two_const = set()    # generated const members on two sets: they take `lt_o`, the comparator object of the other set
         if spec.get('bases'):
             raise Unsupported(f'SmallSet is expected to have no base class, found {len(spec["bases"])}')
         fields = [(m.get('name'), line_of(m)) for m in kids(spec) if m.get('kind') == 'FieldDecl']
@@ -636,6 +642,10 @@ class Translator(F.Translator):
         if a[0] == 'elem' and b[0] == 'elem' and op == '<':
             self.use_extra('ltT')
             return k(path, ('bt', f'ltT {atom(a[1])} {atom(b[1])}', True))
+        if a[0] == 'elem' and b[0] == 'elem' and op == '==' and self.mode == 'functor2':
+            # `==` of the ELEMENT type inside a local comparison struct
+            self.use_extra('eqT')
+            return k(path, ('bt', f'eqT {atom(a[1])} {atom(b[1])}', True))
         if a[0] == 'rit' and b[0] == 'rit' and a[1] == b[1]:
             return super().compare(op, ('it', a[2]), ('it', b[2]), n, path, k)
         if a[0] in ('vit', 'sit', 'pit', 'cursor') or b[0] in ('vit', 'sit', 'pit', 'cursor'):
@@ -808,13 +818,14 @@ class Translator(F.Translator):
                     cv = vs[1]
                     if cv[0] != 'comp':
                         raise Unsupported(f'{where(n)}: `{rd.get("name")}` given a {cv[0]} as comparator')
-                    if self.comp_term(cv) == 'lt':
-                        # a STORED comparator object: the model has one comparator `lt` for both sets (as `swap` / `merge`),
-                        # so what has to hold is that each inline vector is sorted with the comparator object of ITS OWN set
-                        owner = cv[2] if len(cv) > 2 and cv[2] else 's'
+                    owner = cv[2] if len(cv) > 2 and cv[2] else ('s' if self.comp_term(cv) == 'lt' else None)
+                    if owner is not None:
+                        # a STORED comparator object (`lt` of *this; of the other set `lt_o` in the relational operators, the
+                        # shared `lt` in `swap` / `merge`): each inline vector has to be sorted with the comparator object of
+                        # ITS OWN set
                         if owner != ('s' if v[0] == 'vec' else 'o'):
                             raise Unsupported(f'{where(n)}: `{rd.get("name")}` sorts the inline elements of one set with the comparator '
-                                              f'object of the other set (the model has no such thing)')
+                                              f'object of the other set (no known shape does that)')
                 p = p.copy()
                 p.frames.append({q['name']: w for q, w in zip(ps, vs)})
                 def kret(q, w):
@@ -890,6 +901,29 @@ class Translator(F.Translator):
                 self.use_extra('ltT')
                 return k(p, ('bt', f'vecLess ltT {atom(l1)} {atom(l2)}', True))
             return self.eval_list(args, path, cont)
+        if name == 'equal' and len(args) == 4:
+            # std::equal(first1, last1, first2, pred), the THREE-iterator form: the second range is read from `first2` over the
+            # length of the first one; reading past its end is undefined behaviour
+            def cont(p, vs):
+                l1 = self.whole_range(vs[0], vs[1], p, n)
+                f2 = vs[2]
+                src = {'vit': p.vec, 'sit': p.set, 'ovit': p.ovec, 'osit': p.oset}
+                if f2[0] == 'pvit' and f2[2] == '0':
+                    l2 = f2[1]
+                elif f2[0] in src and src[f2[0]] is not None and f2[1] == '0':
+                    l2 = src[f2[0]]
+                else:
+                    raise Unsupported(f'{where(n)}: std::equal whose second range does not start at the beginning of a container ({f2[0]})')
+                if vs[3][0] != 'cmpobj':
+                    raise Unsupported(f'{where(n)}: std::equal with a {vs[3][0]} as comparison')
+                self.check_functor(vs[3][1], n, 'eqT', '==')
+                self.use_extra('eqT')
+                def go(q):
+                    return k(q, ('bt', f'vecEq eqT {atom(l1)} ({atom(l2)}.take {atom(l1)}.length)', True))
+                return self.fork(p, f'{atom(l1)}.length ≤ {atom(l2)}.length', line_of(n), go,
+                                 lambda q: UB('std::equal(first1, last1, first2, pred) reads the second range past its end', None),
+                                 note='std::equal: the second range is at least as long as the first')
+            return self.eval_list(args, path, cont)
         if name == 'is_permutation' and len(args) == 4:
             def cont(p, vs):
                 l1 = self.whole_range(vs[0], vs[1], p, n)
@@ -950,16 +984,25 @@ class Translator(F.Translator):
 
     def check_less_functor(self, name, n):
         """every `operator()` of the local struct has to be `<` of the element type on its (dereferenced) arguments"""
+        return self.check_functor(name, n, 'ltT', '<')
+
+    def check_functor(self, name, n, fn, sym):
+        """the local struct `name` has exactly the three overloads of `operator()` on (pointer, pointer), (pointer, reference),
+        (reference, pointer), and each of them is `sym` (`<` or `==`) of the ELEMENT type on its (dereferenced) arguments, in order"""
         d = self.local_structs.get(name)
         ops = [m for m in kids(d) if m.get('kind') == 'CXXMethodDecl' and m.get('name') == 'operator()'] if d else []
         if not ops:
             raise Unsupported(f'{where(n)}: the comparison object `{name}` has no operator()')
+        if d is not None and any(m.get('kind') == 'FieldDecl' for m in kids(d)):
+            raise Unsupported(f'{where(d)}: the comparison object `{name}` has data members')
+        forms = []
         for m in ops:
             ps = params_of(m)
-            if len(ps) != 2 or not has_body(m):
+            if len(ps) != 2 or not has_body(m) or not self.is_const(m) or self.ret_text(m) != 'bool':
                 raise Unsupported(f'{where(m)}: `{name}::operator()` of an unknown shape')
             sub = Path()
             fr = {}
+            form = []
             for i, q in enumerate(ps):
                 kd = self.type_kind(qual(q), q)
                 if kd == 'ptr':
@@ -968,6 +1011,8 @@ class Translator(F.Translator):
                     fr[q['name']] = ('elem', f'a{i}')
                 else:
                     raise Unsupported(f'{where(q)}: parameter of `{name}::operator()` of kind {kd}')
+                form.append(kd)
+            forms.append(tuple(form))
             sub.frames = [fr]
             saved = (self.mode, self.param_names)
             self.mode, self.param_names = 'functor2', {'a0', 'a1'}
@@ -977,9 +1022,12 @@ class Translator(F.Translator):
                 raise Unsupported(f'{where(m)}: control reaches the end of `{name}::operator()`')
             tree = self.exec_block([body_of(m)], sub, nofall, kret)
             self.mode, self.param_names = saved
-            if not isinstance(tree, Leaf) or tree.ret != 'ltT a0 a1':
-                raise Unsupported(f'{where(m)}: `{name}::operator()` is not `<` of the element type on its two arguments '
+            if not isinstance(tree, Leaf) or tree.ret != f'{fn} a0 a1':
+                raise Unsupported(f'{where(m)}: `{name}::operator()` is not `{sym}` of the element type on its two arguments '
                                   f'(found `{getattr(tree, "ret", "a branching body")}`)')
+        if sorted(forms) != sorted([('ptr', 'ptr'), ('ptr', 'elem'), ('elem', 'ptr')]):
+            raise Unsupported(f'{where(d)}: the overloads of `{name}::operator()` are not exactly (pointer, pointer), '
+                              f'(pointer, reference), (reference, pointer): found {forms}')
 
     def e_LambdaExpr(self, n, path, k):
         """a lambda `[](const_pointer p1, const_pointer p2) { return …; }` or `[&comp](const_pointer p1, const_pointer p2)
@@ -1083,7 +1131,11 @@ class Translator(F.Translator):
                     q = p.copy()
                     var = self.fresh(q, 'r')
                     q.csyms = q.csyms + (f'{var}.2',)
-                    call = ' '.join([lean, 'lt', 'N', arg(st[wa]), arg(st[wb])] + self.extras_of.get(lean, []))
+                    cmp = {'s': 'lt', 'o': self.other_lt}
+                    if lean in self.two_const:
+                        call = ' '.join([lean, cmp[wa], 'N', arg(st[wa]), cmp[wb], arg(st[wb])] + self.extras_of.get(lean, []))
+                    else:
+                        call = ' '.join([lean, 'lt', 'N', arg(st[wa]), arg(st[wb])] + self.extras_of.get(lean, []))
                     return Bind(call, var, k(q, self.from_term(f'{var}.1', self.sigs[lean][1])), line_of(n))
                 if wa and wb and rid in self.targets and self.targets[rid] not in self.sigs:
                     raise Unsupported(f'{where(n)}: `{name}` of SmallSet is called before it is generated: it calls itself or a member generated later '
@@ -1328,9 +1380,10 @@ class Translator(F.Translator):
             if name == 'size':
                 return k(path, ('n', f'{atom(path.oset)}.length'))
             if name == 'key_comp':
-                # the comparator object stored in the other set: in the model both sets share the comparator `lt` (as in
-                # `swap` / `merge`); the owner is remembered so that its use can be checked
-                return k(path, ('comp', 'lt', 'o'))
+                # the comparator object stored in the other set: `lt_o` in a const member on two sets (the relational
+                # operators); in `swap` / `merge` both sets share the comparator `lt` of the model.  The owner is remembered
+                # so that its use can be checked
+                return k(path, ('comp', self.other_lt, 'o'))
         raise Unsupported(f'{where(n)}: member `{name}` of the backing set of the other set is outside the translated subset')
 
     def other_member(self, n, me, name, args, path, k):
@@ -1344,7 +1397,7 @@ class Translator(F.Translator):
             p = path.copy()
             var = self.fresh(p, 'r')
             p.csyms = p.csyms + (f'{var}.2',)
-            return Bind(' '.join([lean, 'lt', 'N', arg(state_term(p.ovec, p.oset))]), var,
+            return Bind(' '.join([lean, self.other_lt, 'N', arg(state_term(p.ovec, p.oset))]), var,
                         k(p, self.from_term(f'{var}.1', self.sigs[lean][1])), line_of(n))
         if decl is not None and path.oset is not None and has_body(decl) and self.is_const(decl) and not args \
                 and str(decl.get('_file')).endswith(HEADER) and len(path.frames) <= 8:
@@ -1522,8 +1575,10 @@ class Translator(F.Translator):
     def header(self, decl, const, what):
         ps = params_of(decl)
         kinds = ', '.join(self.sel_kinds(decl))
+        two_const = const and 'other' in self.sel_kinds(decl)
         return (f'/-- smallset.hpp:{line_of(decl)} `{decl.get("name")}({kinds}){" const" if const else ""}`: '
-                f'({"" if const else "state, "}{what}, comparator calls of the inline scans); `none` = undefined behaviour -/')
+                f'({"" if const else "state, "}{what}, comparator calls of the inline scans); `none` = undefined behaviour'
+                + ('; `lt` / `lt_o` = the comparator objects stored in `*this` / in the other set' if two_const else '') + ' -/')
 
     def translate(self, decl, lean):
         self.mode = 'member'
@@ -1588,6 +1643,8 @@ class Translator(F.Translator):
         self.param_names = set(names)
         const = (not ctor) and self.is_const(decl)
         two = path.ovec is not None
+        # a const member on two sets says which comparator object orders which side: `lt` for *this, `lt_o` for the other set
+        self.other_lt = 'lt_o' if (two and const) else 'lt'
         if ctor:
             path.vec, path.set = None, None
         out_modes = set()
@@ -1627,7 +1684,10 @@ class Translator(F.Translator):
         if len(out_modes) > 1:
             raise Unsupported(f'{where(decl)}: the node handle passed in is moved from on some paths only')
         sig_params = ''.join(f' ({nm} : {ty})' for nm, ty in zip(names, ltys))
-        if two:
+        if two and const:
+            sig_params = ' (lt_o : α → α → Bool) (o : Sets.SSet α)' + sig_params
+            self.two_const.add(lean)
+        elif two:
             sig_params = ' (o : Sets.SSet α)' + sig_params
         sig_params += ''.join(f' ({ex} : α → α → Bool)' for ex in self.extras)
         self.extras_of[lean] = list(self.extras)
@@ -1655,6 +1715,7 @@ class Translator(F.Translator):
             head = f'def {lean} (lt : α → α → Bool) (N : Nat) (s : Sets.SSet α){sig_params} : {rty} :='
         out += [self.header(decl, const, what), head]
         out += self.emit(tree, 1)
+        self.other_lt = 'lt'
         self.sigs[lean] = (kinds, rk)
         self.ctors = getattr(self, 'ctors', set())
         if ctor:
